@@ -245,7 +245,7 @@ def end_to_end(ctx, cfg, d, field, u0s, t0, hs, sigp="grid"):
     solver, prior = objs["solver"], objs["prior"]
     grid = np.concatenate([[t0], t0 + np.cumsum(hs)])
     sol = ivpsolve.solve_fixed_grid(solver=solver)(prior, grid=jnp.asarray(grid), damp=cfg.damp)
-    stepper = sm.ModelStepper(ctx, cfg, field, d, lam_of(cfg, d))
+    stepper = sm.ModelStepper(ctx, cfg, field, d, lam_of(cfg, d), prior=prior)
     state0 = solver.init(jnp.asarray(t0), prior, damp=cfg.damp)
     ms = sm.state_slices(cfg, state0)
     aux = (([Fraction(0)] * d if cfg.fact == "bd" else Fraction(0)), Fraction(0)) if cfg.solver.startswith("mle") else None
